@@ -26,8 +26,9 @@ VARIABLES lock,      \* 0 (free) or the builder holding the build lock
           pc,        \* per thread
           step,      \* per builder: describing steps done
           built,     \* per builder: NotBuilt or the node table its DAG was constructed from
-          outcome    \* per caller: "none", "ran", "recorded", "raised"
-vars == <<lock, table, pc, step, built, outcome>>
+          outcome,   \* per caller: "none", "ran", "recorded", "raised"
+          failed     \* per builder: a build of this thread has failed already (each builder fails at most once)
+vars == <<lock, table, pc, step, built, outcome, failed>>
 
 NotBuilt == {<<0, 0>>}     \* sentinel: no thread is numbered 0
 Describing(t) == IF IMPL = "owner" THEN lock = t ELSE lock # 0
@@ -38,38 +39,46 @@ Init ==
   /\ step = [b \in Builders |-> 0]
   /\ built = [b \in Builders |-> NotBuilt]
   /\ outcome = [t \in DagCallers \cup XnCallers |-> "none"]
+  /\ failed = [b \in Builders |-> FALSE]
 
 \* constructor.py:116-124 / 92-100: take the lock, reset the tables
 Acquire(b) == /\ pc[b] = "start" /\ lock = 0
               /\ lock' = b /\ table' = {} /\ pc' = [pc EXCEPT ![b] = "describe"]
-              /\ UNCHANGED <<step, built, outcome>>
+              /\ UNCHANGED <<step, built, outcome, failed>>
 \* node.py:364-415: one recorded call site (the function pauses between sites)
 Describe(b) == /\ pc[b] = "describe" /\ step[b] < K
                /\ Describing(b)
                /\ table' = table \cup {<<b, step[b] + 1>>}
                /\ step' = [step EXCEPT ![b] = @ + 1]
-               /\ UNCHANGED <<lock, pc, built, outcome>>
+               /\ UNCHANGED <<lock, pc, built, outcome, failed>>
 \* constructor.py:70-88: construct from the tables, then reset and release (101-109)
 Construct(b) == /\ pc[b] = "describe" /\ step[b] = K
                 /\ built' = [built EXCEPT ![b] = table]
                 /\ table' = {} /\ lock' = 0 /\ pc' = [pc EXCEPT ![b] = "done"]
-                /\ UNCHANGED <<step, outcome>>
+                /\ UNCHANGED <<step, outcome, failed>>
+\* the describing function raises: wrap_make_dag's finally resets the tables, the lock is released, and
+\* the thread may try again (constructor.py:101-109); nothing of the failed description may survive
+FailBuild(b) == /\ pc[b] = "describe" /\ step[b] < K /\ ~failed[b]
+                /\ table' = {} /\ lock' = 0 /\ step' = [step EXCEPT ![b] = 0]
+                /\ failed' = [failed EXCEPT ![b] = TRUE]
+                /\ pc' = [pc EXCEPT ![b] = "start"]
+                /\ UNCHANGED <<built, outcome>>
 \* dag.py:685-803: a built DAG is called: spliced into the description, or executed
 CallDag(c) == /\ pc[c] = "start"
               /\ IF Describing(c)
                  THEN table' = table \cup {<<c, 0>>} /\ outcome' = [outcome EXCEPT ![c] = "recorded"]
                  ELSE UNCHANGED table /\ outcome' = [outcome EXCEPT ![c] = "ran"]
               /\ pc' = [pc EXCEPT ![c] = "done"]
-              /\ UNCHANGED <<lock, step, built>>
+              /\ UNCHANGED <<lock, step, built, failed>>
 \* node.py:381-389: a decorated function is called outside any DAG: recorded, or refused
 CallXn(x) == /\ pc[x] = "start"
              /\ IF Describing(x)
                 THEN table' = table \cup {<<x, 0>>} /\ outcome' = [outcome EXCEPT ![x] = "recorded"]
                 ELSE UNCHANGED table /\ outcome' = [outcome EXCEPT ![x] = "raised"]
              /\ pc' = [pc EXCEPT ![x] = "done"]
-             /\ UNCHANGED <<lock, step, built>>
+             /\ UNCHANGED <<lock, step, built, failed>>
 
-Next == \/ \E b \in Builders : Acquire(b) \/ Describe(b) \/ Construct(b)
+Next == \/ \E b \in Builders : Acquire(b) \/ Describe(b) \/ Construct(b) \/ FailBuild(b)
         \/ \E c \in DagCallers : CallDag(c)
         \/ \E x \in XnCallers : CallXn(x)
 Spec == Init /\ [][Next]_vars /\ WF_vars(Next)
